@@ -17,6 +17,8 @@ Ok(ev) ==
     /\ ev.nbvp >= 1 /\ Len(ev.threads) = ev.nbvp /\ Len(ev.bind) = ev.nbvp /\ ev.vthreads = ev.threads
     /\ \A v \in 1..ev.nbvp : /\ ev.threads[v] >= 1 /\ Len(ev.bind[v]) = ev.threads[v]
                              /\ \A t \in 1..Len(ev.bind[v]) : ev.bind[v][t] \in -1..(ev.ncores - 1)
+    \* the flat map itself only names cores that exist (a map file may name anything: those threads stay unbound)
+    /\ ev.c.kind = "flat" => \A v \in 1..ev.nbvp : \A t \in 1..Len(ev.aff[v]) : ev.aff[v][t] \in -1..(ev.ncores - 1)
     /\ Requested(ev.c) => (ev.nbvp = Expected(ev.c).nbvp /\ ev.threads = Expected(ev.c).threads)
 Flag(bad) == /\ rej' = IF bad /\ nrej < 40 THEN rej \cup {nex} ELSE rej
              /\ nrej' = IF bad THEN nrej + 1 ELSE nrej
